@@ -1,9 +1,10 @@
 From Coq Require Import Extraction ExtrOcamlBasic.
-From PV Require Import Lib.ExtractBase Model.Robust Model.RobustWire Model.RobustRedirect Model.RobustGrpcScn Model.GrpcStatus.
+From PV Require Import Lib.ExtractBase Model.Robust Model.RobustWire Model.RobustRedirect Model.RobustGrpcScn Model.GrpcStatus Model.RobustGrpcTime.
 Extraction Language OCaml.
 Extraction "extracted/C19_model.ml" xb_types substr_call substr_seq atoi parse_chain apply_chain var_header_one
   var_header_process assert_process grpc_assert xpath_values var_xpath_process var_jsonpath_process
   extract_elem pre_eval grpc_shoot grpc_bind base_shoot shoot_step scenario_shoot executed instance_run is_panic
   delivered body_complete go_make read_body read_body_announced step_sink shoot_step_wire base_shoot_wire
   client_loop client_do default_check always_check single_trip base_shoot_do shoot_step_do base_shoot_redir followed last_step
-  grpc_scn_step grpc_scn_shoot grpc_scn_executed mk_gstep grpc_code.
+  grpc_scn_step grpc_scn_shoot grpc_scn_executed mk_gstep grpc_code
+  grpc_shoot_timed instance_timed code_ctx result_of effective_timeout.
